@@ -14,6 +14,8 @@ checked by the correspondence harness only, and has its own recorded finding.
 import Hts.Lemmas.CachedReader
 import Hts.Lemmas.CacheContract
 import Hts.Lemmas.CacheReadAhead
+import Hts.Lemmas.CacheSum
+import Hts.Lemmas.CachedReaderVsC02
 namespace Hts.Props.C03
 open Hts.Model.Cache Hts.Spec.CacheContract Hts.Model.CachedReader
 
@@ -113,8 +115,11 @@ theorem cached_faults_only_as_uncached (o : CacheOps σ) (wf : σ → Prop) (ct 
     · simp only [ne_eq, he, not_false_eq_true, if_true] at hr
       cases hr
 
-/-- the current tree (repairs C03-1, C03-2 and C09-2 applied) is a variant the theorems speak about; so is the
-tree with `failAt` alone -/
+/-- `Cfg.repaired` — the variant the harness's probe histories identify the checked tree with (all of C03-1,
+C03-2, C09-2, C03-5 observed as applied; the probe result is printed in the run's histogram and a tree that
+probes as anything else is run against that other variant) — is a variant the theorems speak about; so is the
+variant with `failAt` alone.  This is a statement about the model's `Cfg`, not about the Go tree: which `Cfg`
+the Go tree is, is established by the probe and the correspondence runs only. -/
 theorem current_tree_noStale : Cfg.repaired.noStale := Or.inl rfl
 
 example : (⟨false, false, true, false⟩ : Cfg).noStale := Or.inr rfl
@@ -147,6 +152,51 @@ theorem recorder_transparent (o : CacheOps σ) (wf : σ → Prop) (ct : Contract
     (hr : outputs cfg (recorderOps o) f ops = .ok outs) :
     outputs cfg (recorderOps o) f (ops.map Op.uncached) = .ok outs :=
   cached_refines_uncached (recorderOps o) _ (recorder_contract ct) cfg hcfg f hf ops ok outs hr
+
+/-! ### one history, several kinds of cache
+
+A cache object of kind "LRU or Random or StatsRecorder(LRU) or StatsRecorder(Random)": `SetCache` may attach a
+different kind each time, detached objects of any kind may be attached again. -/
+
+abbrev AnyCache := LCache ⊕ (RCache ⊕ ((LCache × Stats) ⊕ (RCache × Stats)))
+
+def anyOps : CacheOps AnyCache :=
+  sumOps lruOps (sumOps randomOps (sumOps (recorderOps lruOps) (recorderOps randomOps)))
+
+def anyWF : AnyCache → Prop :=
+  sumWF LCache.WF (sumWF RCache.WF (sumWF (fun s => LCache.WF s.1) (fun s => RCache.WF s.1)))
+
+theorem any_contract : Contract anyOps anyWF :=
+  sum_contract lru_contract
+    (sum_contract random_contract (sum_contract (recorder_contract lru_contract) (recorder_contract random_contract)))
+
+/-- generic: if two kinds of cache are transparent-by-contract, histories that mix them are transparent -/
+theorem sum_transparent {σ₁ σ₂ : Type} (o₁ : CacheOps σ₁) (o₂ : CacheOps σ₂) (wf₁ : σ₁ → Prop)
+    (wf₂ : σ₂ → Prop) (c₁ : Contract o₁ wf₁) (c₂ : Contract o₂ wf₂) (cfg : Cfg) (hcfg : cfg.noStale)
+    (f : File) (hf : FileOK f) (ops : List (Op (σ₁ ⊕ σ₂)))
+    (ok : ∀ op ∈ ops, OpOK (sumOps o₁ o₂) (sumWF wf₁ wf₂) op) (outs : List Out)
+    (hr : outputs cfg (sumOps o₁ o₂) f ops = .ok outs) :
+    outputs cfg (sumOps o₁ o₂) f (ops.map Op.uncached) = .ok outs :=
+  cached_refines_uncached _ _ (sum_contract c₁ c₂) cfg hcfg f hf ops ok outs hr
+
+/-- histories that switch between LRU, Random and StatsRecorder-wrapped caches (any capacities ≥ 1, any order, any
+number of switches, re-attaching allowed) return what the uncached reader returns -/
+theorem mixed_kinds_transparent (cfg : Cfg) (hcfg : cfg.noStale) (f : File) (hf : FileOK f)
+    (ops : List (Op AnyCache)) (ok : ∀ op ∈ ops, OpOK anyOps anyWF op) (outs : List Out)
+    (hr : outputs cfg anyOps f ops = .ok outs) : outputs cfg anyOps f (ops.map Op.uncached) = .ok outs :=
+  cached_refines_uncached anyOps anyWF any_contract cfg hcfg f hf ops ok outs hr
+
+def anyLRU (n : Int) : AnyCache := .inl (LCache.new n)
+def anyRandom (n : Int) : AnyCache := .inr (.inl (RCache.new n))
+def anyStatsLRU (n : Int) : AnyCache := .inr (.inr (.inl (LCache.new n, {})))
+def anyStatsRandom (n : Int) : AnyCache := .inr (.inr (.inr (RCache.new n, {})))
+
+theorem any_setCache_ok (n : Int) (hn : 1 ≤ n) (hints : List Int) :
+    OpOK anyOps anyWF (.setCache (some (anyLRU n)) hints) ∧
+    OpOK anyOps anyWF (.setCache (some (anyRandom n)) hints) ∧
+    OpOK anyOps anyWF (.setCache (some (anyStatsLRU n)) hints) ∧
+    OpOK anyOps anyWF (.setCache (some (anyStatsRandom n)) hints) :=
+  ⟨⟨LCache.wf_new hn, rfl⟩, ⟨RCache.wf_new hn, rfl⟩, ⟨LCache.wf_new hn, rfl⟩, ⟨RCache.wf_new hn, rfl⟩⟩
 
 /-! ### the unchanged tree: witnesses -/
 
@@ -273,6 +323,24 @@ theorem readahead_with_cache_deadlock_witness :
       some (.scanning 2 2, none, [], true) :=
   Hts.Model.ReadAheadCache.deadlock_witness
 
+/-! ### what the uncached baseline is
+
+The right-hand side of every refinement above is this model run with `cache = none`.  It is a different (heap-based)
+model from the one C02 proves to refine the flat-file specification (`Hts.Model.Bgzf.Reader`).  No general theorem
+relates the two; their agreement is pinned by kernel evaluation on every history of length ≤ 3 over 12 / 11 calls on
+two files, and otherwise rests on both being compared with the Go reader by their harnesses. -/
+
+/-- BOUNDED: on `fileA` (three data members, no EOF marker) and `fileB` (data, empty member, data, EOF marker) the
+uncached run of this model and C02's reader model return the same bytes, error class and `LastChunk` for every
+history of at most 3 calls out of Read(1/4/7), ReadByte, Seek(member starts, inside a member, end of file, a
+non-member offset), Blocked on/off (1728 + 1331 histories), and neither model faults -/
+theorem uncached_baseline_agrees_with_c02_model_bounded :
+    Hts.Model.CachedReader.VsC02.agreeOver Hts.Model.CachedReader.VsC02.alphabet
+      Hts.Model.CachedReader.VsC02.fileA 3 = true ∧
+    Hts.Model.CachedReader.VsC02.agreeOver Hts.Model.CachedReader.VsC02.alphabetB
+      Hts.Model.CachedReader.VsC02.fileB 3 = true :=
+  ⟨Hts.Model.CachedReader.VsC02.agree_fileA, Hts.Model.CachedReader.VsC02.agree_fileB⟩
+
 /-! ### non-vacuity -/
 
 /-- the hypotheses of `lru_transparent` hold for a history with cache hits and an eviction, and the run is `ok` -/
@@ -285,5 +353,51 @@ example : ∃ outs, outputs Cfg.repaired lruOps file3 staleOps = .ok outs ∧ ou
     have : (bytesOf (outputs Cfg.repaired lruOps file3 staleOps)).length = 9 := by decide
     rw [h] at this
     simpa [bytesOf] using this
+
+/-- `random_transparent` is not vacuous: Random(1), victim hint "key 0"; the Put at the second Seek finds the cache
+full with the used block of member 0 and evicts it (the hint is consumed), the third Seek is a cache hit.
+Hypotheses hold, the run is `ok`, cached = uncached (an instance of the theorem, also checked by evaluation). -/
+def randomHist : List (Op RCache) :=
+  [.setCache (some (RCache.new 1)) [0], .read 1, .seek 35 0, .read 1, .seek 70 0, .read 4, .seek 35 0, .read 6]
+
+example : (∀ op ∈ randomHist, OpOK randomOps RCache.WF op) ∧
+    bytesOf (outputs Cfg.repaired randomOps file3 randomHist) =
+      [([], .ok), ([65], .ok), ([], .ok), ([66], .ok), ([], .ok), ([67, 67, 67, 67], .ok), ([], .ok),
+        ([66, 66, 66, 66, 66, 66], .ok)] ∧
+    bytesOf (outputs Cfg.repaired randomOps file3 (randomHist.map Op.uncached)) =
+      bytesOf (outputs Cfg.repaired randomOps file3 randomHist) := by
+  refine ⟨?_, by decide, by decide⟩
+  intro op hop
+  simp only [randomHist, List.mem_cons, List.mem_nil_iff, or_false] at hop
+  rcases hop with h1 | h1 | h1 | h1 | h1 | h1 | h1 | h1 <;> subst h1 <;>
+    first | exact random_setCache_ok 1 (by decide) [0] | trivial
+
+/-- … the eviction really happened: after the run the hint is used up and the cache holds member 35's block only
+after handing it out and getting member 70's back -/
+example : (match newReader randomOps Cfg.repaired file3 with
+    | .ok (r, _) => (match run Cfg.repaired randomOps file3 r (randomHist.take 5) with
+        | .ok (r', _) => (r'.hints, r'.cache.map (fun c => c.items.map (·.key)))
+        | .error _ => ([1], none))
+    | .error _ => ([2], none)) = ([], some [35]) := by decide
+
+/-- a history that goes LRU → Random (with an eviction) → StatsRecorder(LRU) → nil → the first LRU again;
+hypotheses of `mixed_kinds_transparent` hold, run `ok`, cached = uncached -/
+def mixedHist : List (Op AnyCache) :=
+  [.setCache (some (anyLRU 1)) [], .read 1, .seek 35 0, .read 1,
+   .setCache (some (anyRandom 1)) [35], .seek 70 0, .read 4, .seek 0 0, .read 2,
+   .setCache (some (anyStatsLRU 2)) [], .seek 35 0, .read 6, .seek 0 3, .read 3,
+   .setCache none [], .seek 70 1, .read 3, .reattach 0 [], .seek 0 0, .read 6]
+
+example : (∀ op ∈ mixedHist, OpOK anyOps anyWF op) ∧
+    (bytesOf (outputs Cfg.repaired anyOps file3 mixedHist)).length = 20 ∧
+    bytesOf (outputs Cfg.repaired anyOps file3 (mixedHist.map Op.uncached)) =
+      bytesOf (outputs Cfg.repaired anyOps file3 mixedHist) := by
+  refine ⟨?_, by decide, by decide⟩
+  intro op hop
+  simp only [mixedHist, List.mem_cons, List.mem_nil_iff, or_false] at hop
+  rcases hop with h1 | h1 | h1 | h1 | h1 | h1 | h1 | h1 | h1 | h1 | h1 | h1 | h1 | h1 | h1 | h1 | h1 | h1 | h1 | h1 <;>
+    subst h1 <;>
+    first | exact (any_setCache_ok 1 (by decide) []).1 | exact (any_setCache_ok 1 (by decide) [35]).2.1
+          | exact (any_setCache_ok 2 (by decide) []).2.2.1 | trivial
 
 end Hts.Props.C03
